@@ -21,7 +21,9 @@ LEVEL = "exploration"
 RULE = ("seeded scenarios: a compatible TX/RX configuration (channel, rate, CRC, address width, pipe, "
         "dynamic/static length, ask_no_ack, SPI back-end, chip variant) + 1..12 payload operations "
         "(send, send(list), write+poll; lengths 0..40; bytes/bytearray) + explicit ACK/packet-loss rules on a "
-        "strict subset of attempts; thorough adds a receiver task draining at seeded instants and the full "
+        "strict subset of attempts; role switching (turn) between the two radios; in a third of the runs one or both sides "
+        "were configured for a different link first; in a third a send meets a dead medium (blackout) and the transmitter "
+        "then re-targets to a second pipe of the peer; thorough adds a receiver task draining at seeded instants and the full "
         "static-length x payload-length grid. Non-trivial: at least one payload crossed the air; distinct = "
         "distinct abstract event sequences (kind,node) of air/chip/API events")
 ASSUMPTIONS = ["chip/air model decisions M1, M3, M4, M8 (DESIGN.md section 3)",
@@ -30,7 +32,7 @@ ASSUMPTIONS = ["chip/air model decisions M1, M3, M4, M8 (DESIGN.md section 3)",
 CLAUSES = {"rejects": "ValueError before anything reaches the radio", "loaded": "bytes uploaded to the TX FIFO",
            "delivered": "byte-for-byte, exactly once, in order, right pipe", "result": "premise: working link",
            "unaliased": "caller's buffer object is never modified"}
-PROBES = ["pid_duplicate_dropped"]
+PROBES = ["pid_duplicate_dropped", "send_on_dead_medium", "retargeted"]
 SHRINK_KEYS = ("ops", "faults")
 CHUNK = 40
 
@@ -102,6 +104,32 @@ def make(i, base_seed, tier):
                 ops.insert(k, {"op": "turn"})
                 k += 1
             k += 1
+    xr = stream(seed, "ext")
+    if not grid and xr.random() < 0.35:
+        # configuration history: one or both sides were configured for a different link before
+        other = common.rand_link_cfg(xr)
+        keep = {k: other[k] for k in ("channel", "rate", "aw", "crc", "auto_ack", "dyn", "static_len", "allow_ask_no_ack")}
+        cfg["pre"] = {"tx": keep if xr.random() < 0.7 else None, "rx": keep if xr.random() < 0.5 else None}
+    if not grid and cfg["auto_ack"] and not any(o["op"] == "turn" for o in ops) and xr.random() < 0.35:
+        # a send that meets a dead medium (all attempts lost), after which the transmitter re-targets to another pipe
+        # of the peer: nothing of the failed payload may ever come out of the peer
+        used = {unhx(cfg["addr"])[0], unhx(cfg["p1"])[0]}
+        b0 = xr.getrandbits(8)
+        while b0 in used:
+            b0 = xr.getrandbits(8)
+        cand = [q for q in range(6) if q != cfg["pipe"] and not (q == 1 and cfg["pipe"] >= 2)]
+        q = xr.choice(cand)
+        if q >= 2:
+            a2 = bytes([b0]) + unhx(cfg["p1"])[1:]
+        else:
+            a2 = bytes([b0]) + bytes(xr.getrandbits(8) for _ in range(4))
+        cfg["alt"] = {"pipe": q, "addr": a2.hex()}
+        sends = [k for k, o in enumerate(ops) if o["op"] in ("send", "write")]
+        for k in sorted(xr.sample(sends, min(len(sends), xr.randint(1, 2))), reverse=True):
+            n = xr.randint(1, 32)
+            dead = {"op": "send", "bufs": [hx(common.rand_payload(xr, n))], "types": [xr.choice(["bytes", "bytearray"])],
+                    "ask_no_ack": False, "list": False, "dead": True}
+            ops[k:k] = [dead, {"op": "retarget"}] if xr.random() < 0.8 else [{"op": "retarget"}]
     faults = []
     if cfg["auto_ack"] and rng.random() < 0.5:
         for op in ops:
@@ -181,7 +209,22 @@ def _run(scn, cfg, w, res):
         rx_task = sim.spawn("rx", rx_loop, rx_mcu)
 
     outstanding = 0
+    cur_pipe = cfg["pipe"]
+    stale = False
     for op in scn["ops"]:
+        if op["op"] == "retarget":
+            if conc or not fwd or not cfg.get("alt"):
+                continue
+            n_ = cfg["aw"] if cfg.get("trunc_addr") else 5
+            if cur_pipe == cfg["pipe"]:
+                cur_pipe = cfg["alt"]["pipe"]
+                tx.open_tx_pipe(unhx(cfg["alt"]["addr"])[:n_])
+            else:
+                cur_pipe = cfg["pipe"]
+                tx.open_tx_pipe(fwd_addr)
+            sim.log("call", "T", "retarget", cur_pipe)
+            sim.count("retargeted")
+            continue
         if op["op"] == "turn":
             if conc or rev_addr is None:
                 continue
@@ -218,6 +261,16 @@ def _run(scn, cfg, w, res):
         arg = bufs if op["list"] else bufs[0]
         exc = None
         ret = None
+        dead = bool(op.get("dead")) and not conc and fwd and cfg["auto_ack"]
+        if op.get("dead") and not dead:
+            continue
+        if dead:
+            w.air.blackout = True
+        if stale and op["op"] == "write":
+            # documented: a failed send() leaves its payload in the TX FIFO (for resend()); send() discards it by itself,
+            # before a bare write() the application has to
+            tx.flush_tx()
+        stale = dead
         try:
             if op["op"] == "send":
                 ret = tx.send(arg, ask_no_ack=op["ask_no_ack"])
@@ -237,6 +290,8 @@ def _run(scn, cfg, w, res):
             res.add("rejects", {"kind": "unexpected_exception", "exc": type(e).__name__},
                     "%s(%r) raised %r" % (op["op"], [len(b) for b in bufs], e))
             return
+        finally:
+            w.air.blackout = False
         sim.log("ret", "T", op["op"], repr(ret), type(exc).__name__)
         ups = common.tx_uploads(rt.spi_log, spi_mark)
         # ---- unaliased
@@ -263,11 +318,17 @@ def _run(scn, cfg, w, res):
         for u in ups:
             if u[1] == 0xB0 and not op["ask_no_ack"]:
                 res.add("loaded", {"kind": "noack_command"}, "W_TX_PAYLOAD_NOACK used without ask_no_ack")
+        if dead:
+            # nothing was received by anybody: the payload is owed to nobody, and must never turn up later
+            if ret:
+                res.add("result", {"kind": "success_on_dead_medium"}, "send() returned %r although every attempt was lost" % (ret,))
+            sim.count("send_on_dead_medium")
+            continue
         # ---- result (premise: working link)
         rets = ret if op["list"] else [ret]
         if not isinstance(rets, list) or len(rets) != len(bufs) or not all(bool(x) for x in rets):
             res.add("result", {"kind": "send_reported_failure"}, "%s returned %r on a working link" % (op["op"], ret))
-        expected.extend((cfg["pipe"] if fwd else cfg["rpipe"], e) for e in exp)
+        expected.extend((cur_pipe if fwd else cfg["rpipe"], e) for e in exp)
         outstanding += len(bufs)
         res.nontrivial = True
 
